@@ -44,6 +44,14 @@ def build(case):
     g = gcheck.make_graph(case["n"], case["edges"], case.get("grown"))
     a = s.bool_array(case["n"])
     ff = case.get("flagform")
+    if ff in ("const", "mixed"):
+        # the pattern (or every second entry of it) given as plain Python bools, as the docstring allows
+        from cspuz.array import BoolArray1D
+        from cspuz.expr import BoolVar
+
+        vals = [bool(case["consts"][v]) if (ff == "const" or v % 2) else a[v] for v in range(case["n"])]
+        fn(s, BoolArray1D(vals) if (case["seg"] or case.get("as_array")) else vals, g)
+        return s, vals
     if ff == "nested":
         from cspuz.array import BoolArray1D
 
@@ -159,9 +167,28 @@ def run_layers(part, case):
     part.add("restricted", ("layers", n, len(edges)))
 
 
+def run_constforms(part, case, prange=None):
+    from cspuz.expr import BoolVar
+
+    n, edges = case["n"], case["edges"]
+    key = "%s[graph,%s]" % ("segmenting" if case["seg"] else "not_adjacent", case["flagform"])
+    for pattern in gcheck.patterns(n, prange):
+        exp = oracle(n, edges, pattern, case["seg"])
+        try:
+            s, vals = build(dict(case, consts=list(pattern)))
+        except Exception as e:
+            part.violation(key + ":build-raises-" + type(e).__name__, dict(case, pattern=list(pattern)), {"exception": repr(e)[:300], "expected_sat": exp})
+            continue
+        gcheck.judge(part, key, case, pattern, exp, s, [gcheck.fix(v, b) for v, b in zip(vals, pattern) if isinstance(v, BoolVar)])
+    part.add("graphs", (n, tuple(edges)))
+
+
 def run_case(part, case, prange=None):
     if case.get("layers"):
         run_layers(part, case)
+        return
+    if case.get("flagform") in ("const", "mixed"):
+        run_constforms(part, case, prange)
         return
     if "shape" in case:
         h, w = case["shape"]
@@ -225,6 +252,16 @@ def cases_for(tier):
             continue
         for seg in (False, True):
             out.append({"route": "graph", "n": n, "edges": es, "seg": seg, "name": name})
+    # the pattern given as Python constants (all of it / every second entry)
+    for n in range(1, 5):
+        for edges in graphref.simple_graphs(n):
+            for seg in (False, True):
+                for ff in ("const", "mixed"):
+                    out.append({"route": "graph", "n": n, "edges": list(edges), "seg": seg, "flagform": ff, "as_array": bool(len(edges) % 2)})
+    for name, n, es in graphref.zoo():
+        if n <= 6 and not name.endswith("~relabelled"):
+            for seg in (False, True):
+                out.append({"route": "graph", "n": n, "edges": list(es), "seg": seg, "flagform": "mixed"})
     # activity given as expressions; two layers on one Graph object and Solver; board histories
     for n, es in gcheck.layer_graphs():
         for seg in (False, True):
